@@ -1651,7 +1651,7 @@ def c05(tier, replay=None):
     from .tlc import run_tlc, require_ok, write_cfg
     report = Report('C05', tier)
     recs = []
-    for edits, start in ([(2, 1), (2, 2)] if tier == 'quick' else [(3, 1), (3, 2)]):
+    for edits, start in ([(2, 1), (2, 2), (2, 3)] if tier == 'quick' else [(3, 1), (3, 2), (3, 3)]):
         cfg = write_cfg('MC_Hint_%d_%d.cfg' % (edits, start), '''
 SPECIFICATION Spec
 CONSTANTS
@@ -1790,6 +1790,32 @@ def _codec_pick(recs, tier, rng, clauses):
     return small + hot[:limit // 3] + cold[:limit - limit // 3]
 
 
+def _c06_judge(report, rec, v, value, pos, through_db, obs, via, nontrivial):
+    if v['t'] in ('q', 'comb', 'list', 'tuple', 'dict', 'enum', 'value'):
+        nontrivial.add(json_key(v, 0))
+    detail = {'built_from': via, 'value': repr(value)[:300], 'position': pos, 'through_version_table': through_db,
+              'observed': {k: obs[k] for k in obs if k != 'tb'}, 'spec_viol': rec['viol']}
+    modulo_ok = 'ReadBackEqualModuloTuples' not in rec['viol']
+    tuple_only = ('ReadBackEqual' in rec['viol']) and modulo_ok
+    fpx = {'built_from': via, 'position': pos, 'value_type': v['t'], 'tuple_becomes_list': tuple_only,
+           'predicted_by_spec': not modulo_ok}
+    if obs.get('write_error'):
+        report.fail(dict(fpx, **{'class': 'cannot-serialize'}), detail)
+    elif obs.get('read_error'):
+        report.fail(dict(fpx, **{'class': 'cannot-deserialize'}), detail)
+    elif obs.get('compare_error'):
+        report.fail(dict(fpx, **{'class': 'compare-raises'}), detail)
+    else:
+        if not obs['eq']:
+            report.fail(dict(fpx, **{'class': 'read-back-not-equal'}), detail)
+        if not obs['diff_empty']:
+            report.fail(dict(fpx, **{'class': 'read-back-diff-not-empty'}), detail)
+        if not obs['same_text']:
+            report.fail(dict(fpx, **{'class': 'reserialises-differently'}), detail)
+        if obs['eq'] and not modulo_ok:
+            report.spec_drift('Codec.tla predicts a read-back difference for %s' % repr(value)[:80])
+
+
 def c06(tier, replay=None):
     import random
     from . import djsetup
@@ -1807,6 +1833,7 @@ def c06(tier, replay=None):
     rig.prepare(_start_sig(3), nrows=0)
     rig.fresh_copy('c06')
     nontrivial = set()
+    via_objects = 0
     for i, rec in enumerate(chosen):
         v = rec['val']
         pos = codec.position_of(v)
@@ -1818,38 +1845,22 @@ def c06(tier, replay=None):
             report.notes.append('cannot concretise %s: %s' % (v['t'], e))
             continue
         through_db = (i % 4 == 0) or tier == 'thorough'
-        obs = codec.storage_round_trip(value, pos, through_db)
-        report.coverage['traces_validated_against_impl'] += 1
-        if v['t'] in ('q', 'comb', 'list', 'tuple', 'dict', 'enum', 'value'):
-            nontrivial.add(json_key(v, 0))
-        detail = {'value': repr(value)[:300], 'position': pos, 'through_version_table': through_db,
-                  'observed': {k: obs[k] for k in obs if k != 'tb'}, 'spec_viol': rec['viol']}
-        modulo_ok = 'ReadBackEqualModuloTuples' not in rec['viol']
-        tuple_only = ('ReadBackEqual' in rec['viol']) and modulo_ok
-        fpx = {'position': pos, 'value_type': v['t'], 'tuple_becomes_list': tuple_only,
-               'predicted_by_spec': not modulo_ok}
-        if obs.get('write_error'):
-            report.fail(dict(fpx, **{'class': 'cannot-serialize'}), detail)
-        elif obs.get('read_error'):
-            report.fail(dict(fpx, **{'class': 'cannot-deserialize'}), detail)
-        elif obs.get('compare_error'):
-            report.fail(dict(fpx, **{'class': 'compare-raises'}), detail)
-        else:
-            if not obs['eq']:
-                report.fail(dict(fpx, **{'class': 'read-back-not-equal'}), detail)
-            if not obs['diff_empty']:
-                report.fail(dict(fpx, **{'class': 'read-back-diff-not-empty'}), detail)
-            if not obs['same_text']:
-                report.fail(dict(fpx, **{'class': 'reserialises-differently'}), detail)
-            if obs['eq'] and not modulo_ok:
-                report.spec_drift('Codec.tla predicts a read-back difference for %s' % repr(value)[:80])
+        last = {}
+        for via in ('direct', 'objects'):
+            obs = codec.storage_round_trip(value, pos, through_db, via)
+            if obs is None:
+                continue
+            last = obs
+            report.coverage['traces_validated_against_impl'] += 1
+            via_objects += (via == 'objects')
+            _c06_judge(report, rec, v, value, pos, through_db, obs, via, nontrivial)
         if pos == 'field_attr':
             o1 = codec.v1_round_trip(value, pos)
             if o1.get('error') or not o1.get('diff_empty'):
                 report.fail({'class': 'v1-round-trip-differs', 'value_type': v['t']},
-                            dict(detail, v1=o1))
-        report.sample({'value': repr(value)[:120], 'position': pos, 'eq': obs.get('eq'),
-                       'diff_empty': obs.get('diff_empty'), 'same_text': obs.get('same_text')})
+                            {'value': repr(value)[:300], 'v1': o1})
+        report.sample({'value': repr(value)[:120], 'position': pos, 'eq': last.get('eq'),
+                       'diff_empty': last.get('diff_empty'), 'same_text': last.get('same_text')})
     R.close_db()
     report.coverage['distinct_nontrivial'] = len(nontrivial)
     report.coverage['exhaustive'] = len(chosen) == len(recs)
@@ -1860,8 +1871,10 @@ def c06(tier, replay=None):
         'deserialize): %d values, %d of them placed into a real project signature (index condition / '
         'expressions / include, constraint check / deferrable / attrs, field attribute) and pushed through '
         'serialize()+json+deserialize() and through Version.save()/reload on SQLite, with a palette of '
-        'strings (quotes, backslash, unicode, percent). Non-trivial = structured values.'
-        % (len(recs), len(chosen)))
+        'strings (quotes, backslash, unicode, percent); %d of the signatures were built from real Django '
+        'Index / CheckConstraint / UniqueConstraint objects through from_index / from_constraint (tuples as '
+        'Django deconstructs them). Non-trivial = structured values.'
+        % (len(recs), len(chosen), via_objects))
     report.assumptions += ['byte-level string escaping is exercised through the palette only']
     return report.finish()
 
